@@ -193,6 +193,7 @@ def execute(history):
     streams, matches = {}, {}
     viols = []
     cnt = {}
+    obs = []
 
     def bump(k, v=1):
         cnt[k] = cnt.get(k, 0) + v
@@ -224,6 +225,7 @@ def execute(history):
                     mm["void"] = True
             elif kind == "mf":
                 mf = sa.matching_function()
+                obs.append([opi, None if mf is None else [core.fbits(x) for x in mf]])
                 bump("op:matching_function")
                 if mf is not None:
                     if len(mf) != ls or any(not close(float(a), b) for a, b in zip(mf, model_mf)):
@@ -261,6 +263,7 @@ def execute(history):
                         continue
                     value = float(m.value)
                     st["items"].append((idx, value, seg))
+                    obs.append([opi, idx, core.fbits(value), seg, [list(map(int, t)) for t in m.path]])
                     matches[op["match"]] = {"m": m, "idx": idx, "value": value, "segment": seg, "op": opi}
                     spec = st["spec"]
                     add(check_match(setup, model_mf, idx, value, seg, m.path, "stream %s item %d" % (spec["kind"], len(st["items"]))), opi)
@@ -350,7 +353,7 @@ def execute(history):
             if kind in ("next", "read", "best_match", "get_match", "mf", "align") and sa.matching is not None:
                 add({"class": "exception", "detail": "%s raised %s: %s" % (kind, type(exc).__name__, str(exc)[:200])}, opi)
     return {"violations": viols[:4], "counters": cnt, "nontrivial": sessions.sessions_interleaved(history),
-            "digest": core.hash_obj([[v["class"], v["op"]] for v in viols])}
+            "digest": core.hash_obj([obs, [[v["class"], v["op"]] for v in viols]])}
 
 
 def signature(history, viol):
